@@ -484,31 +484,51 @@ func evalSwitchVal(pkg *packages.Package, stmts []ast.Stmt, env map[types.Object
 }
 
 func r084(c *Ctx, r *R) {
+	// the query keys a function (with the same-package functions it calls)
+	// sets or gets: every string constant that can reach the key argument
+	// of url.Values.Set/Add/Get/Has - directly, through a parse helper's
+	// parameter, or through a table of names
 	keysIn := func(rel, name string, meth string) (map[string]token.Pos, *ast.FuncDecl, *packages.Package) {
 		fd, pkg := c.decl(r, rel, name)
 		out := map[string]token.Pos{}
 		if fd == nil {
 			return out, nil, nil
 		}
-		for _, d := range funcsCalledFrom(c.P, pkg, fd) {
-			ast.Inspect(d.Body, func(n ast.Node) bool {
-				call, ok := n.(*ast.CallExpr)
-				if !ok {
-					return true
+		root := c.fn(r, rel, name)
+		if root == nil {
+			return out, fd, pkg
+		}
+		meths := []string{"(net/url.Values).Set", "(net/url.Values).Add"}
+		if meth == "Get" {
+			meths = []string{"(net/url.Values).Get", "(net/url.Values).Has"}
+		}
+		within := ssaClosure(root)
+		var fns []*ssa.Function
+		for g := range within {
+			fns = append(fns, g)
+		}
+		sort.Slice(fns, func(i, j int) bool { return fns[i].Pos() < fns[j].Pos() })
+		for _, g := range fns {
+			for _, ci := range callsIn(g) {
+				if !nameMatches(callName(ci.Common()), meths...) {
+					continue
 				}
-				fn := funcFullName(pkg, call)
-				switch {
-				case fn == "(net/url.Values)."+meth && len(call.Args) >= 1:
-					if k, ok := constStr(pkg, call.Args[0]); ok {
-						out[k] = call.Pos()
+				args := callArgs(ci.Common())
+				if len(args) < 1 {
+					continue
+				}
+				// computed keys (the metadata prefix) are the business of
+				// the metadata-prefix clause below
+				ks, _ := constStringsReaching(args[0], within)
+				for k, pos := range ks {
+					if !pos.IsValid() {
+						pos = ci.Pos()
 					}
-				case meth == "Get" && strings.HasPrefix(fn, ModPath+"/api.parse") && len(call.Args) >= 2:
-					if k, ok := constStr(pkg, call.Args[1]); ok {
-						out[k] = call.Pos()
+					if _, dup := out[k]; !dup {
+						out[k] = pos
 					}
 				}
-				return true
-			})
+			}
 		}
 		return out, fd, pkg
 	}
